@@ -264,6 +264,10 @@ func judge(c caseSpec) verdict {
 	if v.em.refused != "" {
 		return v
 	}
+	if v.em.reuse != "" {
+		v.diff = &difference{"second-query-from-the-same-criteria-differs", v.em.reuse}
+		return v
+	}
 	tq, err := parseTextCached(v.em.text)
 	if err != nil {
 		msg := err.Error()
